@@ -473,6 +473,12 @@ type ShadowCase struct {
 	InFn   bool   // the whole form lives in (defun g () ...) called afterwards
 	NoTail bool   // force the call out of tail position
 	Paren  bool   // spell binding entries with ( ) instead of [ ]
+	// a second context binding the SAME name S, placed inside the first one's
+	// hole, directly around the (noise-wrapped) call: "" = none, else an
+	// expression-level class.  Its function has signature SSig2 and announces
+	// itself with (probe "shadow2").
+	Class2 string `json:",omitempty"`
+	SSig2  Sig
 }
 
 // expression-level shadow contexts: templates over holes
@@ -608,6 +614,16 @@ func genShadow() *rapid.Generator[ShadowCase] {
 		}
 		c.NoTail = rapid.Bool().Draw(t, "notail")
 		c.Paren = rapid.Bool().Draw(t, "paren")
+		if c.Class != "none" && rapid.IntRange(0, 2).Draw(t, "nested") == 0 {
+			inner := make([]string, 0, len(exprClassNames))
+			for _, n := range exprClassNames {
+				if n != "none" {
+					inner = append(inner, n)
+				}
+			}
+			c.Class2 = pick(t, inner, "class2")
+			c.SSig2 = genSig(t, false)
+		}
 		return c
 	})
 }
@@ -640,13 +656,13 @@ func buildShadow(c ShadowCase) (p *Program, bad string) {
 		}
 		return P(tpl, map[string]*Node{"H": inner})
 	}
-	mk := func(tpl string, extra map[string]*Node) *Node {
+	mkWith := func(tpl string, ssig Sig, tag string, extra map[string]*Node) *Node {
 		holes := map[string]*Node{
 			"S":     A(c.S),
-			"F":     P(`(lambda `+c.SSig.Formals()+` (probe "shadow"))`, nil),
-			"SF":    P(c.SSig.Formals(), nil),
-			"SB":    P(`(probe "shadow")`, nil),
-			"SCALL": callNode(c.S, validArgs(c.SSig), false),
+			"F":     P(`(lambda `+ssig.Formals()+` (probe "`+tag+`"))`, nil),
+			"SF":    P(ssig.Formals(), nil),
+			"SB":    P(`(probe "`+tag+`")`, nil),
+			"SCALL": callNode(c.S, validArgs(ssig), false),
 		}
 		for k, v := range extra {
 			holes[k] = v
@@ -655,7 +671,15 @@ func buildShadow(c ShadowCase) (p *Program, bad string) {
 		tpl = strings.ReplaceAll(tpl, "'%S", "'"+c.S)
 		return P(tpl, holes)
 	}
+	mk := func(tpl string, extra map[string]*Node) *Node { return mkWith(tpl, c.SSig, "shadow", extra) }
 	h := wrap(c.Inner, hNode)
+	if c.Class2 != "" {
+		tpl2, ok := exprClasses[c.Class2]
+		if !ok || c.Class2 == "none" {
+			return nil, "unknown inner class " + c.Class2
+		}
+		h = mkWith(tpl2, c.SSig2, "shadow2", map[string]*Node{"H": h})
+	}
 	p = &Program{Paren: c.Paren}
 	if c.NUser {
 		p.Forms = append(p.Forms, defunNode("defun", c.N, c.NSig, P(`(probe "orig")`, nil)))
@@ -700,13 +724,25 @@ func checkShadow(c ShadowCase, ctx *vcommon.Ctx) *vcommon.Failure {
 		return vcommon.Failf("harness/bad-case", "%s", bad)
 	}
 	src, line, col := p.Render()
-	class := c.Class
-	if c.S != c.N {
-		class += "/other-name"
+	if c.Class2 != "" && (c.Class == "none" || c.Class2 == "none") {
+		return vcommon.Failf("harness/bad-case", "nested context without an outer one")
 	}
-	if c.NUser {
-		class = "user:" + class
+	// the class a failure is keyed by: "outer+inner" for nested contexts
+	className := func(base string) string {
+		class := base
+		if c.S != c.N {
+			class += "/other-name"
+		}
+		if c.NUser {
+			class = "user:" + class
+		}
+		return class
 	}
+	keyClass := c.Class
+	if c.Class2 != "" {
+		keyClass = c.Class + "+" + c.Class2
+	}
+	class := className(keyClass)
 
 	// refscope: which binding does the call reach?
 	res, rerr := resolveTarget(p, regSet)
@@ -769,7 +805,7 @@ func checkShadow(c ShadowCase, ctx *vcommon.Ctx) *vcommon.Failure {
 	case r.Binder != "":
 		// only possible when the call bound, ran, and was evaluated again
 		// (recursion through the shadow) — the first evaluation decides
-		if !(next == "shadow" || next == "orig") {
+		if !(next == "shadow" || next == "shadow2" || next == "orig") {
 			return vcommon.Failf("harness/late-binder-error", "binding failure after the call under test in\n%s%s", src, r)
 		}
 	case r.IsErr && next == "" && r.Line == line && r.Col == col+1 &&
@@ -780,7 +816,7 @@ func checkShadow(c ShadowCase, ctx *vcommon.Ctx) *vcommon.Failure {
 	// run-time evidence of the reached binding vs refscope
 	if obs == bindOK {
 		got := next
-		if got != "shadow" && got != "orig" {
+		if got != "shadow" && got != "shadow2" && got != "orig" {
 			got = ""
 		}
 		if got != expectTag {
@@ -791,7 +827,15 @@ func checkShadow(c ShadowCase, ctx *vcommon.Ctx) *vcommon.Failure {
 		return vcommon.Failf("binder/model-disagree/shadow", "refscope: call reaches %s, so the grammar predicts %q; the evaluator gives %q:\n%s%s", res, pred, obs, src, r)
 	}
 
-	ctx.Class("class:" + class)
+	if c.Class2 == "" {
+		ctx.Class("class:" + class)
+	} else {
+		// 23 x 33 combinations: the histogram keeps the two coordinates apart
+		ctx.Class("nested")
+		ctx.Class("nested-outer:" + c.Class)
+		ctx.Class("nested-inner:" + c.Class2)
+		ctx.Class("nested-reaches:" + kind + "/" + expectTag)
+	}
 	ctx.Class("reaches:" + kind)
 	ctx.Class("outcome:" + obs)
 	if len(onCall) > 0 {
@@ -809,10 +853,32 @@ func checkShadow(c ShadowCase, ctx *vcommon.Ctx) *vcommon.Failure {
 
 	desc := fmt.Sprintf("\n%scall at %d:%d reaches %s; lint=%v; run=%s", src, line, col, res, onCall, r)
 
-	main := shadowVerdict(c, kind, class, sig, obs, onCall, desc)
-	var strayF *vcommon.Failure
-	if len(stray) > 0 {
-		strayF = vcommon.Failf(strayKey(c, stray, class), "diagnostic on a form that is not the call under test (every other call in the program is valid, and formals / control lists are not calls) in\n%s%v", src, stray)
+	// verdicts are keyed by the context class.  With two nested contexts of
+	// the same name the key is "outer+inner"; when that key is not registered
+	// but the same kind of failure IS registered for one of the two classes on
+	// its own, the case is a manifestation of that registered finding inside a
+	// larger program and is attributed to it (inner class first).
+	verdicts := func(kc string) (*vcommon.Failure, *vcommon.Failure) {
+		cc := c
+		cc.Class = kc
+		m := shadowVerdict(cc, kind, className(kc), sig, obs, onCall, desc)
+		var sf *vcommon.Failure
+		if len(stray) > 0 {
+			sf = vcommon.Failf(strayKey(cc, stray, className(kc)), "diagnostic on a form that is not the call under test (every other call in the program is valid, and formals / control lists are not calls) in\n%s%v", src, stray)
+		}
+		return m, sf
+	}
+	main, strayF := verdicts(keyClass)
+	if c.Class2 != "" {
+		for _, alt := range []string{c.Class2, c.Class} {
+			am, as := verdicts(alt)
+			if main != nil && !ctx.Known(main.Key) && am != nil && ctx.Known(am.Key) {
+				main = am
+			}
+			if strayF != nil && !ctx.Known(strayF.Key) && as != nil && ctx.Known(as.Key) {
+				strayF = as
+			}
+		}
 	}
 	// report the first failure that is not a registered finding, so that a
 	// known class never hides a new one in the same case
@@ -835,9 +901,16 @@ func strayKey(c ShadowCase, stray []diag, class string) string {
 		// lists and on calls that reach a local function named if
 		return "arity/if-arity/ignores-shadowing"
 	}
-	if who == "builtin-arity" && c.Class == "dotimes-var-body" && len(stray) == 1 && strings.HasPrefix(stray[0].Msg, c.S+" ") {
-		// the control list (var count) of dotimes is reported as a call
-		return "arity/non-call-reported/dotimes-control-list"
+	if nd := strings.Count(c.Class, "dotimes-var-body"); who == "builtin-arity" && nd > 0 && len(stray) <= nd {
+		// the control list (var count) of dotimes is reported as a call (once
+		// per dotimes context of the case)
+		all := true
+		for _, d := range stray {
+			all = all && strings.HasPrefix(d.Msg, c.S+" ")
+		}
+		if all {
+			return "arity/non-call-reported/dotimes-control-list"
+		}
 	}
 	return "arity/stray/" + who + "/" + class
 }
@@ -912,6 +985,7 @@ func TestCheck(t *testing.T) {
 		vcommon.S("redef", 12000, 400000, genRedef(), checkRedef),
 		vcommon.S("pkg", 12000, 300000, genPkg(), checkPkg),
 		vcommon.S("hbind", 12000, 300000, genHBind(), checkHBind),
+		vcommon.S("enclose", 24000, 700000, genEnclose(), checkEnclose),
 	)
 }
 
